@@ -1,4 +1,4 @@
-CONSTANTS Srcs = {"h:63", "h:6379", "x:1"} Dbs = {0, 1, 2} MaxSteps = 3 MaxDamage = 1
+CONSTANTS Srcs = {"h:63", "h:6379", "x-1.y:1"} Dbs = {0, 1, 2} MaxSteps = 3 MaxDamage = 1
 SPECIFICATION Spec
 INVARIANTS OthersIgnored Newest NoneIffNoOwn UnknownRunIdForcesFullSync
 CHECK_DEADLOCK FALSE
